@@ -209,6 +209,11 @@ func init() {
 			// long-lived, regularly used connections (5 requests 100 s apart: beyond the 300 s stream timeout, never idle that long)
 			vx.Job{Scenario: "e2e.route", Params: vx.P("numconn", "2", "apps", "1", "sizes", "5", "rounds", "5", "gap", "100"), Bound: b(1, 2), Weight: 5},
 			vx.Job{Scenario: "e2e.route", Params: vx.P("numconn", "0", "apps", "2", "sizes", "5", "rounds", "5", "gap", "100"), Bound: b(0, 1), Weight: 5},
+			// "a session with open streams keeps working": a stream opened or accepted at the very instant the
+			// inactivity timer fires is either refused or served, never killed underneath the application
+			vx.Job{Scenario: "mux.timeout", Params: vx.P("op", "open"), Bound: b(2, 3), Weight: 4},
+			vx.Job{Scenario: "mux.timeout", Params: vx.P("op", "reopen"), Bound: b(2, 3), Weight: 4},
+			vx.Job{Scenario: "mux.timeout", Params: vx.P("op", "accept"), Bound: b(1, 2), Weight: 4},
 			// a slow consumer: 6 MiB unread on one stream, which is then given up; the other stream keeps working
 			vx.Job{Scenario: "mux.backlog", Params: vx.P("mb", "6", "close", "1"), Bound: b(0, 1), Weight: 4},
 			vx.Job{Scenario: "mux.backlog", Params: vx.P("mb", "6", "close", "0"), Bound: 0, Weight: 4},
